@@ -3,6 +3,7 @@ package main
 import (
 	"context"
 	"crypto/sha256"
+	"errors"
 	"encoding/hex"
 	"fmt"
 	"os"
@@ -11,6 +12,7 @@ import (
 	"strings"
 	"sync"
 
+	"github.com/attestantio/dirk/core"
 	"github.com/attestantio/dirk/rules"
 	standardrules "github.com/attestantio/dirk/rules/standard"
 	"github.com/attestantio/dirk/services/checker"
@@ -18,13 +20,17 @@ import (
 	"github.com/attestantio/dirk/services/fetcher"
 	memfetcher "github.com/attestantio/dirk/services/fetcher/mem"
 	"github.com/attestantio/dirk/services/locker"
+	standardlister "github.com/attestantio/dirk/services/lister/standard"
 	syncmaplocker "github.com/attestantio/dirk/services/locker/syncmap"
+	staticpeers "github.com/attestantio/dirk/services/peers/static"
+	standardprocess "github.com/attestantio/dirk/services/process/standard"
 	"github.com/attestantio/dirk/services/ruler"
 	goruler "github.com/attestantio/dirk/services/ruler/golang"
 	"github.com/attestantio/dirk/services/signer"
 	standardsigner "github.com/attestantio/dirk/services/signer/standard"
 	localunlocker "github.com/attestantio/dirk/services/unlocker/local"
 	"github.com/attestantio/dirk/testing/daemon"
+	"github.com/herumi/bls-eth-go-binary/bls"
 	"github.com/rs/zerolog"
 	e2types "github.com/wealdtech/go-eth2-types/v2"
 	keystorev4 "github.com/wealdtech/go-eth2-wallet-encryptor-keystorev4"
@@ -32,6 +38,21 @@ import (
 	scratch "github.com/wealdtech/go-eth2-wallet-store-scratch"
 	e2wtypes "github.com/wealdtech/go-eth2-wallet-types/v2"
 )
+
+// nullSender is the sender of a single-instance process service: there is nobody to send to.
+type nullSender struct{}
+
+func (nullSender) Prepare(context.Context, *core.Endpoint, string, []byte, uint32, []*core.Endpoint) error {
+	return errors.New("no peers")
+}
+func (nullSender) Execute(context.Context, *core.Endpoint, string) error { return errors.New("no peers") }
+func (nullSender) Commit(context.Context, *core.Endpoint, string, []byte) ([]byte, []byte, error) {
+	return nil, nil, errors.New("no peers")
+}
+func (nullSender) Abort(context.Context, *core.Endpoint, string) error { return errors.New("no peers") }
+func (nullSender) SendContribution(context.Context, *core.Endpoint, string, bls.SecretKey, []bls.PublicKey) (bls.SecretKey, []bls.PublicKey, error) {
+	return bls.SecretKey{}, nil, errors.New("no peers")
+}
 
 type acctCfg struct {
 	wallet, name string
@@ -43,6 +64,7 @@ type acctCfg struct {
 type world struct {
 	dir      string
 	accts    []acctCfg
+	wallets  []string
 	perms    map[string][]*checker.Permissions
 	adminIPs []string
 	raws     [][2][]byte
@@ -57,6 +79,8 @@ type world struct {
 	fetcher  fetcher.Service
 	unlocker *localunlocker.Service
 	signer   signer.Service
+	lister   *standardlister.Service
+	process  *standardprocess.Service
 
 	lockWrap func(locker.Service) locker.Service
 	noCache  bool
@@ -112,6 +136,9 @@ func (w *world) config(f []string) bool {
 	switch f[0] {
 	case "acct":
 		w.accts = append(w.accts, acctCfg{wallet: unhexStr(f[1]), name: unhexStr(f[2]), pubkey: unhex(f[3]), unlockable: f[4] == "1"})
+	case "wallet":
+		w.wallets = append(w.wallets, unhexStr(f[1]))
+		w.noCache = true
 	case "perm":
 		c := unhexStr(f[1])
 		var ops []string
@@ -130,6 +157,8 @@ func (w *world) config(f []string) bool {
 		w.adminIPs = append(w.adminIPs, unhexStr(f[1]))
 	case "raw":
 		w.raws = append(w.raws, [2][]byte{unhex(f[1]), unhex(f[2])})
+	case "nocache":
+		w.noCache = true
 	case "locktrace":
 		w.enableTrace()
 	case "legacyregex":
@@ -165,6 +194,13 @@ func (w *world) buildWallets(ctx context.Context) {
 	w.store = scratch.New()
 	enc := keystorev4.New()
 	wallets := map[string]e2wtypes.Wallet{}
+	for _, name := range w.wallets {
+		wal, err := nd.CreateWallet(ctx, name, w.store, enc)
+		if err != nil {
+			panic(err)
+		}
+		wallets[name] = wal
+	}
 	for _, a := range w.accts {
 		wal, ok := wallets[a.wallet]
 		if !ok {
@@ -260,6 +296,21 @@ func (w *world) openRules() {
 	}
 	w.locker = lk
 	w.ruler, err = goruler.New(w.ctx, goruler.WithLocker(lk), goruler.WithRules(w.rules))
+	if err != nil {
+		panic(err)
+	}
+	w.lister, err = standardlister.New(w.ctx, standardlister.WithFetcher(w.fetcher), standardlister.WithChecker(w.checker), standardlister.WithRuler(w.ruler))
+	if err != nil {
+		panic(err)
+	}
+	peersSvc, err := staticpeers.New(w.ctx, staticpeers.WithPeers(map[uint64]string{1: "self:1"}))
+	if err != nil {
+		panic(err)
+	}
+	w.process, err = standardprocess.New(w.ctx, standardprocess.WithChecker(w.checker), standardprocess.WithUnlocker(w.unlocker),
+		standardprocess.WithSender(nullSender{}), standardprocess.WithFetcher(w.fetcher), standardprocess.WithEncryptor(keystorev4.New()),
+		standardprocess.WithPeers(peersSvc), standardprocess.WithID(1), standardprocess.WithStores([]e2wtypes.Store{w.store}),
+		standardprocess.WithGenerationPassphrase([]byte("pass")))
 	if err != nil {
 		panic(err)
 	}
